@@ -7,8 +7,9 @@ the cache `sf.costs` are read afterwards) and replayed through Model/SlicerCosts
 with the recorded choices as the oracle: per-trial returns, every cached
 ContractionCosts table (contractions, _flops, _sizes, nslices, _flop_reductions,
 _write_reductions, _where, size_dict) and the `best` result must be equal.
-A second, verified checker (Proofs/SlicerFacts.v cache_scratch_b) compares every
-cached table of the model with the table built from scratch by Model/Net.v.
+For the same cases Coq also evaluates hyps_b (verified checker of the theorems'
+hypotheses, Proofs/SlicerFacts.v hyps_b_sound) and search_scratch_b (every cached
+table of the model against the table built from scratch by Model/Net.v).
 
 Oracle: for every returned (indices, prediction) the prediction is compared with
 an independent cost evaluator (vlib.oracle.spec_costs, from the network alone) and
@@ -371,8 +372,6 @@ def run_case(ctx, rng, ci, cases, records, scratch_cases):
             ctx.count("returned_2plus")
         if any(len(t["choices"]) > len(key_of(sf, t["ret"]) or ()) for t in trials if t["ret"] is not None):
             ctx.count("overhead_break")
-        if len(sf.costs) > 1 + sum(len(t["choices"]) for t in trials) - 1 and repeats > 1:
-            pass
 
     # ---- tree.slice post-conditions ---------------------------------------------
     for reslice in (False, True):
@@ -414,13 +413,9 @@ def run_case(ctx, rng, ci, cases, records, scratch_cases):
             un = fresh_tree(inputs, output, size_dict, path, ())
             ub = stats_of(un)
             bad += forbidden_broken(ao, after, output, ())
-            if proj3:
-                bad.append("reslice kept projected indices %r" % proj3) if False else None
-            tg3 = dict(tg)
-            # documented: with reslice the target number of slices is on top of the incoming number
-            bad += targets_hold(tg3, spec3["size"], spec3["flops"], ub["flops"], spec3["multiplicity"],
-                                base["mult"] if "target_slices" in tg else 1)
-            bad = [b for b in bad if b]
+            # with reslice the cost targets are relative to the unsliced tree and (documented) the
+            # target number of slices is on top of the incoming number of slices
+            bad += targets_hold(tg, spec3["size"], spec3["flops"], ub["flops"], spec3["multiplicity"], base["mult"])
         if bad:
             ctx.fail("tree.slice(reslice=%r) post-condition: " % reslice + "; ".join(bad),
                      dict(rec, reslice=reslice, sliced_after=after))
